@@ -9,9 +9,9 @@
    the pointer-level model of stream.c; [Bad _] results are use-after-free,
    failed ABTI_ASSERT, a never-ending list walk, or signed overflow.
    [reach mx ops s rs]: running [ops] after [api_init mx] ends without fault in
-   state [s] with per-call results [rs].  [ops_ok ops]: requested ranks are
-   below INT_MAX and fewer than INT_MAX-1 calls are made (see
-   C17_rank_int_max_refuted for why INT_MAX is excluded). *)
+   state [s] with per-call results [rs].  [ops_ok ops]: requested ranks fit a C
+   int (<= INT_MAX) and fewer than INT_MAX-1 calls are made, so that no int of
+   the C code (rank++, num_xstreams++) can overflow where the model uses Z. *)
 From Coq Require Import List ZArith Bool Sorting.Sorted.
 From ABT Require Import DS.RankList DS.RankListProofs Conc.XstreamCtx Conc.XstreamCtxProofs.
 Import ListNotations.
@@ -127,15 +127,29 @@ Theorem C17_head_invariant_needed :
 Proof. exact corruption_example. Qed.
 Print Assumptions C17_head_invariant_needed.
 
-(* Finding: rank INT_MAX is accepted by the argument checks (rank >= 0) but
-   xstream_update_max_xstreams computes newrank + 1 in int: signed overflow. *)
-Theorem C17_rank_int_max_refuted :
-  exists s0, api_init 4 = Ok s0 /\ api_step s0 (ACreateRank INT_MAX) = Bad EOverflow.
+(* Former finding (fixed in /repo by commit a3733c8, model updated): rank
+   INT_MAX passes the argument checks (rank >= 0) and
+   xstream_update_max_xstreams computed newrank + 1 in int -- signed overflow.
+   With the saturating fix the call is covered by the theorems above
+   ([ops_ok] admits every rank <= INT_MAX). *)
+Theorem C17_rank_int_max_refuted_old :
+  forall s, maxx s <= INT_MAX -> update_max_buggy s INT_MAX = Bad EOverflow.
+Proof.
+  intros s H. unfold update_max_buggy.
+  destruct (Z.geb_spec INT_MAX (maxx s)); [reflexivity|]. exfalso. apply (Z.lt_irrefl INT_MAX).
+  eapply Z.lt_le_trans; eauto.
+Qed.
+Print Assumptions C17_rank_int_max_refuted_old.
+
+Example C17_rank_int_max_ok :
+  exists s0 s1, api_init 4 = Ok s0 /\
+                api_step s0 (ACreateRank INT_MAX) = Ok (s1, [ABT_SUCCESS; INT_MAX]) /\
+                maxx s1 = INT_MAX /\ fst (dump s1) = [(0%nat, 0, true); (1%nat, INT_MAX, true)].
 Proof.
   exists (match api_init 4 with Ok s => s | Bad _ => rl_empty 0 end).
+  eexists. split; [vm_compute; reflexivity|]. split; [vm_compute; reflexivity|].
   split; vm_compute; reflexivity.
 Qed.
-Print Assumptions C17_rank_int_max_refuted.
 
 (* The native-thread protocol of abtd_stream.c: in every run of the LTS -- all
    interleavings of the stream thread and the controller, spurious wake-ups at
